@@ -120,6 +120,8 @@ fn run_event(front: &str, region: &str, s: &St, e: &E) -> Observed {
                     3 => Script { rx1: Some(dlf(true, Tamper::BadMic)), ..Default::default() },
                     4 => Script { rxc1: vec![dlf(true, Tamper::None)], ..Default::default() },
                     5 => Script { rxc2: vec![dlf(false, Tamper::None)], ..Default::default() },
+                    // a confirmed Class C downlink before RX1, then an unconfirmed downlink in RX1: the ACK stays owed
+                    6 => Script { rxc1: vec![dlf(true, Tamper::None)], rx1: Some(dlf(false, Tamper::None)), ..Default::default() },
                     _ => Script::default(),
                 };
                 AEv::Send { confirmed: *confirmed, port: 1, len: 1, script }
@@ -225,7 +227,7 @@ pub fn step(front: &str, region: &str, s: &St, e: &E) -> (Vec<(String, String)>,
                     if o.accepted_confirmed {
                         n.owed = true;
                     }
-                    if let E::Up { outcome: 4 | 5, .. } = e {
+                    if let E::Up { outcome: 4 | 5 | 6, .. } = e {
                         // A Class C downlink accepted between TX and the windows restarts the count;
                         // whether the uplink that was in flight then counts as 'one uplink since' is
                         // not fixed by the statement: both are admissible.
@@ -302,7 +304,7 @@ pub struct Case {
 
 fn events(front: &str, region: &str) -> Vec<E> {
     let mut v = vec![];
-    let outs: &[u8] = if front == "nb" { &[0, 1, 2, 3] } else { &[0, 1, 2, 3, 4, 5] };
+    let outs: &[u8] = if front == "nb" { &[0, 1, 2, 3] } else { &[0, 1, 2, 3, 4, 5, 6] };
     for c in [false, true] {
         for &o in outs {
             v.push(E::Up { confirmed: c, outcome: o });
@@ -414,7 +416,7 @@ pub fn run(tier: Tier, replay: Option<&str>) {
         "samples": [serde_json::to_value(Case { front: "nb".into(), region: "EU868".into(), state: St { dr: 5, adr: true, cnt: 95, owed_ack: true, confirmed: false, has_down: true, models: vec![Model { cnt: 95, dr: 5, owed: true, adr: true, strict: true }] }, event: E::Up { confirmed: true, outcome: 0 }, path_len: 96 }).unwrap()],
         "evaluations": ctx.evals(),
         "distinct_nontrivial": states_total,
-        "rule": "complete reachable graph of (data rate, ADR flag, ADR counter, owed ACK, last uplink confirmed, downlink seen, reference-model candidates) from the fresh session at the highest uplink rate, per region and front-end (nb; async with Class C); every state is restored on a fresh real device through Session (de)serialisation + public setters, then one event is applied: uplink (confirmed / unconfirmed) with outcome {nothing, accepted unconfirmed dl RX1, accepted confirmed dl RX2, rejected dl, Class C accepted dl before RX1 / RX2}, set_adr(on/off), set_datarate(lowest/middle/highest, and DR8 above the RFU gap of the fixed plans). The counter dimension is followed until it has passed every back-off step plus two periods",
+        "rule": "complete reachable graph of (data rate, ADR flag, ADR counter, owed ACK, last uplink confirmed, downlink seen, reference-model candidates) from the fresh session at the highest uplink rate, per region and front-end (nb; async with Class C); every state is restored on a fresh real device through Session (de)serialisation + public setters, then one event is applied: uplink (confirmed / unconfirmed) with outcome {nothing, accepted unconfirmed dl RX1, accepted confirmed dl RX2, rejected dl, Class C accepted dl before RX1 / RX2, confirmed Class C dl before RX1 followed by an unconfirmed dl in RX1}, set_adr(on/off), set_datarate(lowest/middle/highest, and DR8 above the RFU gap of the fixed plans). The counter dimension is followed until it has passed every back-off step plus two periods",
         "max_adr_counter_reached": max_cnt_seen,
         "regions": regions,
         "outcomes": outcomes,
